@@ -318,7 +318,7 @@ func (p *PX) term(v ssa.Value, fr *pxFrame, st *pxState) *Term {
 				if cell, isCell := p.cellOf(fa.X, fr); isCell {
 					fk := fmt.Sprintf("%s.%d", strings.TrimSuffix(cell, "*"), fa.Field)
 					if t, ok := st.vals[fk]; ok {
-						if p.fieldVerKey(fieldID(fa), st) == p.localFieldVer(fk, st) {
+						if p.fieldVerKey(fieldID(fa), st) == p.localFieldVer(fk, st) || p.w.purelyLocalAddr(fa.X) {
 							return t
 						}
 					} else if whole, ok := st.vals[cell]; ok {
@@ -326,6 +326,9 @@ func (p *PX) term(v ssa.Value, fr *pxFrame, st *pxState) *Term {
 							return t
 						}
 					}
+				}
+				if t := p.arrayCellLoad(fa, fr, st); t != nil {
+					return t // a row of a private local array of structs (pxarrcell.go)
 				}
 				key := p.fieldLoadKey(fa, fr, st)
 				if t, ok := st.vals["mem:"+key]; ok {
@@ -405,6 +408,10 @@ func (p *PX) term(v ssa.Value, fr *pxFrame, st *pxState) *Term {
 				}
 			}
 			if ia, ok := x.X.(*ssa.IndexAddr); ok {
+				// a whole row of a private local array of structs (pxarrcell.go)
+				if t := p.arrayRowLoad(ia, fr, st); t != nil {
+					return t
+				}
 				// element of a package-level lookup table that is constant after initialisation
 				if t := p.tableLoad(ia, v.Type(), fr, st); t != nil {
 					return t
@@ -449,6 +456,7 @@ func (p *PX) term(v ssa.Value, fr *pxFrame, st *pxState) *Term {
 		if t := p.roIndexAddr(a, i, v.Type()); t != nil {
 			return t
 		}
+		i = p.decidedIndex(a, i, st)
 		return &Term{K: TLeaf, V: v, T: v.Type(), key: "idx(" + a.key + "," + i.key + ")"}
 	case *ssa.Convert:
 		a := p.term(x.X, fr, st)
@@ -538,6 +546,13 @@ func (p *PX) term(v ssa.Value, fr *pxFrame, st *pxState) *Term {
 			if isPrefixTerm(a) {
 				return a.Args[1] // len(arr[:k]) = k
 			}
+			if nc, ok := a.V.(*ssa.Const); ok && a.K == TLeaf && nc.Value == nil {
+				// len of the nil slice / map handed down as an argument (`pack(tag, 0, nil)`)
+				switch a.T.Underlying().(type) {
+				case *types.Slice, *types.Map:
+					return &Term{K: TConst, C: new(big.Int), T: v.Type(), key: "0"}
+				}
+			}
 			if al, ok := a.V.(*ssa.Alloc); ok && a.K == TLeaf && !p.views {
 				if n, ok := localArrayLen(al); ok && isSliceOrArrayPtr(c.Args[0].Type()) {
 					nb := big.NewInt(n)
@@ -572,9 +587,22 @@ func (p *PX) term(v ssa.Value, fr *pxFrame, st *pxState) *Term {
 		} else if sc := c.StaticCallee(); sc != nil {
 			name = qualifiedFnName(sc)
 		}
+		// a library function called through a function value known on the path (a method
+		// value `be16 := binary.BigEndian.Uint16`, `unix := date.Unix`; pxlibfv.go): the
+		// same call with the bound receiver put back in front
+		var fvRecv *Term
+		cargs := c.Args
+		if sc := c.StaticCallee(); !c.IsInvoke() && (sc == nil || len(sc.FreeVars) > 0) {
+			if lf, recv := p.libFuncValue(c, fr, st); lf != nil {
+				name, fvRecv = qualifiedFnName(lf), recv
+				if recv != nil {
+					cargs = append([]ssa.Value{nil}, c.Args...)
+				}
+			}
+		}
 		// binary.BigEndian.UintNN over a buffer whose octets are known terms
-		if n := map[string]int{"(encoding/binary.bigEndian).Uint16": 2, "(binary.bigEndian).Uint16": 2, "(encoding/binary.bigEndian).Uint32": 4, "(binary.bigEndian).Uint32": 4, "(encoding/binary.bigEndian).Uint64": 8, "(binary.bigEndian).Uint64": 8}[name]; n > 0 && len(c.Args) == 2 {
-			if bs := p.byteSeqOf(c.Args[1], fr, st); bs != nil && len(bs.Oct) >= n {
+		if n := map[string]int{"(encoding/binary.bigEndian).Uint16": 2, "(binary.bigEndian).Uint16": 2, "(encoding/binary.bigEndian).Uint32": 4, "(binary.bigEndian).Uint32": 4, "(encoding/binary.bigEndian).Uint64": 8, "(binary.bigEndian).Uint64": 8}[name]; n > 0 && len(cargs) == 2 {
+			if bs := p.byteSeqOf(cargs[1], fr, st); bs != nil && len(bs.Oct) >= n {
 				if t := beTerm(bs.Oct[:n], v.Type()); t != nil {
 					return t
 				}
@@ -599,6 +627,10 @@ func (p *PX) term(v ssa.Value, fr *pxFrame, st *pxState) *Term {
 			if boundRecv != nil {
 				args = append(args, boundRecv)
 				keys = append(keys, boundRecv.key)
+			}
+			if fvRecv != nil {
+				args = append(args, fvRecv)
+				keys = append(keys, fvRecv.key)
 			}
 			for _, a := range c.Args {
 				ta := p.term(a, fr, st)
@@ -783,6 +815,7 @@ func (p *PX) instrs(fr *pxFrame, b *ssa.BasicBlock, from int, st *pxState, k pxC
 			delete(st.vals, cell)
 			delete(st.bseq, cell)
 			p.localArrayReset(x, fr, st)
+			p.arrayCellReset(x, fr, st)
 			if pt, ok := x.Type().Underlying().(*types.Pointer); ok {
 				if z := zeroOf(pt.Elem()); z != nil {
 					st.vals[cell] = z
@@ -810,7 +843,10 @@ func (p *PX) instrs(fr *pxFrame, b *ssa.BasicBlock, from int, st *pxState, k pxC
 		case *ssa.Store:
 			// a whole-struct store advances the versions of all fields of the type: first,
 			// so that the components recorded for a local (splitStruct) carry the new versions
-			p.structStore(x, st)
+			// (a variable nobody else can point to aliases nothing: pxlocalstruct.go)
+			if !p.w.purelyLocalAddr(x.Addr) {
+				p.structStore(x, st)
+			}
 			// local variable cells and symbolic byte sequences
 			if al, ok := x.Addr.(*ssa.Alloc); ok {
 				vt := p.term(x.Val, fr, st)
@@ -837,7 +873,10 @@ func (p *PX) instrs(fr *pxFrame, b *ssa.BasicBlock, from int, st *pxState, k pxC
 			}
 			if fa, ok := x.Addr.(*ssa.FieldAddr); ok {
 				vt := p.term(x.Val, fr, st)
-				p.bumpField(fieldID(fa), st)
+				p.arrayCellStore(fa, vt, fr, st) // a row of a private local array of structs (pxarrcell.go)
+				if !p.w.purelyLocalAddr(fa) {
+					p.bumpField(fieldID(fa), st)
+				}
 				if al, isLocal := fa.X.(*ssa.Alloc); isLocal {
 					fk := fmt.Sprintf("%s.%d", p.reg(fr, al), fa.Field)
 					st.vals[fk] = vt
@@ -1318,6 +1357,8 @@ func (p *PX) havocLoopKeep(fr *pxFrame, lp *loopInfo, st *pxState, keep map[stri
 						st.env[fresh.key] = top.Intersect(ISet{{new(big.Int).Sub(top.Min(), big.NewInt(step)), is.Max()}})
 						p.downCounterBounds(fresh, init, st)
 					}
+					// a counter stopped by `== c` / `!= c` does not step over c (pxeqexit.go)
+					st.env[fresh.key] = eqExitBound(lp, phi, step, is, st.env[fresh.key])
 				}
 			}
 		}
@@ -1334,6 +1375,7 @@ func (p *PX) havocLoopKeep(fr *pxFrame, lp *loopInfo, st *pxState, keep map[stri
 				}
 				if fa, ok := x.Addr.(*ssa.FieldAddr); ok {
 					p.bumpField(fieldID(fa), st)
+					p.arrayCellHavoc(fa, fr, st)
 				}
 			}
 		}
